@@ -608,6 +608,9 @@ func (c *Ctx) c14Prefixes() {
 				return f.A.K == "slice" && (isConst(f.A.Args[2], fmt.Sprint(len(v.prefix))) || f.A.Args[2].String() == "len(#\""+v.prefix+"\")") &&
 					(f.A.Args[1] == nil || f.A.Args[1].K == "none" || isConst(f.A.Args[1], "0"))
 			}
+			if f.Kind == "bool" && f.Pos && isCall(f.A, "strings.CutPrefix") && f.A.Idx == 1 && isConst(arg(f.A, 1), "\""+v.prefix+"\"") {
+				return true
+			}
 			return f.Kind == "bool" && f.Pos && isCall(f.A, "strings.HasPrefix") && isConst(arg(f.A, 1), "\""+v.prefix+"\"")
 		}}
 		R.Check("R2", v.dec, "decoder tests the same prefix", c.P.Pos(dec.Pos()), do.SuccessCut(prefix), "the decoder accepts only strings that start with "+v.prefix, "a success return is reachable without the prefix test")
